@@ -249,6 +249,12 @@ def extract(ctx):
 
 
 # ----------------------------------------------------------------------------------------------- harness
+# The thread smoke test (TSan flavor) runs against a libcoap built WITH assertions (RelWithDebInfo minus -DNDEBUG): the lock
+# macros and API wrappers carry asserts (lock owner, non-NULL context, delay_recursive) that an NDEBUG build compiles away —
+# a public API call that trips one does not "complete" in a debug build of the application.
+ASSERTS_ON = ["-DCMAKE_C_FLAGS_RELWITHDEBINFO=-O2 -g"]
+
+
 def locking_build(rc, flavor="asan"):
     """(bdir, defs) of a libcoap build that has locking compiled in, with lock variant rc"""
     b, cfgs, _ = t1()
@@ -257,10 +263,12 @@ def locking_build(rc, flavor="asan"):
             if flavor == "asan":
                 return b[n]
             if n == "cmake":
-                return C.build_libcoap(flavor), []
-            return C.build_libcoap(flavor, extra_defs=" ".join(at_defs()), cmake_args=OFF, tag="at"), at_defs()
+                return C.build_libcoap(flavor, cmake_args=ASSERTS_ON, tag="dbg"), []
+            return C.build_libcoap(flavor, extra_defs=" ".join(at_defs()), cmake_args=OFF + ASSERTS_ON, tag="atdbg"), at_defs()
     # neither configuration of the tree gives this variant with locking on: force it
     d = ["-DCOAP_THREAD_SAFE=1"] + (["-DCOAP_THREAD_RECURSIVE_CHECK=1"] if rc else [])
+    if flavor != "asan":
+        return C.build_libcoap(flavor, extra_defs=" ".join(d), cmake_args=OFF + ASSERTS_ON, tag="on%ddbg" % rc), d
     return C.build_libcoap(flavor, extra_defs=" ".join(d), cmake_args=OFF, tag="on%d" % rc), d
 
 
